@@ -531,8 +531,9 @@ func (c *Ctx) rulesC02x(a *coreAnchors) {
 		for _, name := range []string{"parseAdd", "parseRequire", "stateBlockedBy", "sortRequire", "SortStates"} {
 			f := c.fnOpt(pm + ":DefaultRelationsResolver." + name)
 			if f == nil {
-				// the sort pass may live in SortStates itself
-				if name != "sortRequire" {
+				// the sort pass may live in SortStates itself, the blocked-by scan in
+				// the filter closure of TargetStates
+				if name != "sortRequire" && name != "stateBlockedBy" {
 					c.undecided("C02.pure: DefaultRelationsResolver." + name + " not found")
 				}
 				continue
